@@ -9,11 +9,13 @@
 
 using Bytes = std::vector<uint8_t>;
 
+// buffer at a chosen offset (0/16/32/48) from a 64-byte boundary: the functions document only "size is a multiple of 64" and use
+// 16-byte aligned vector loads, so every 16-byte aligned placement is an input they accept; canaries on both sides
 struct AlignedBuf {
-	uint8_t* p; size_t n;
-	explicit AlignedBuf(size_t n_) : n(n_) { if (posix_memalign((void**)&p, 64, n_ + 128) != 0) abort(); memset(p, 0xEE, n_ + 128); }
-	~AlignedBuf() { free(p); }
-	bool canaryOk() const { for (size_t i = n; i < n + 128; ++i) if (p[i] != 0xEE) return false; return true; }
+	uint8_t* base; uint8_t* p; size_t n;
+	explicit AlignedBuf(size_t n_, unsigned off = 0) : n(n_) { if (posix_memalign((void**)&base, 64, n_ + 256) != 0) abort(); memset(base, 0xEE, n_ + 256); p = base + 64 + (off & 48); }
+	~AlignedBuf() { free(base); }
+	bool canaryOk() const { for (uint8_t* q = base; q < p; ++q) if (*q != 0xEE) return false; for (uint8_t* q = p + n; q < base + n + 256; ++q) if (*q != 0xEE) return false; return true; }
 };
 
 // ---- single rounds -----------------------------------------------------------------------------
@@ -60,9 +62,9 @@ static rc::Gen<RoundCase> genRound() {
 
 // ---- generators / hash -------------------------------------------------------------------------
 struct BufCase {
-	uint8_t seed[64]; uint64_t bufSeed; uint32_t size; int bufKind;
-	std::string dump() const { return vh::KVWriter().bytes("seed", seed, 64)("bufSeed", bufSeed)("size", size)("bufKind", (uint64_t)bufKind).str(); }
-	static BufCase parse(const vh::KV& kv) { BufCase c; auto s = vh::unhex(vh::gets(kv, "seed")); s.resize(64); memcpy(c.seed, s.data(), 64); c.bufSeed = vh::getu(kv, "bufSeed"); c.size = (uint32_t)vh::getu(kv, "size"); c.bufKind = (int)vh::getu(kv, "bufKind"); return c; }
+	uint8_t seed[64]; uint64_t bufSeed; uint32_t size; int bufKind; unsigned off = 0;
+	std::string dump() const { return vh::KVWriter().bytes("seed", seed, 64)("bufSeed", bufSeed)("size", size)("bufKind", (uint64_t)bufKind)("off", (uint64_t)off).str(); }
+	static BufCase parse(const vh::KV& kv) { BufCase c; auto s = vh::unhex(vh::gets(kv, "seed")); s.resize(64); memcpy(c.seed, s.data(), 64); c.bufSeed = vh::getu(kv, "bufSeed"); c.size = (uint32_t)vh::getu(kv, "size"); c.bufKind = (int)vh::getu(kv, "bufKind"); c.off = (unsigned)vh::getu(kv, "off", 0) & 48; return c; }
 	void fillBuf(uint8_t* p) const {
 		if (bufKind == 0) { vh::XorShift x(bufSeed); x.fill(p, size); }
 		else if (bufKind == 1) memset(p, (int)(bufSeed & 0xff), size);
@@ -71,10 +73,10 @@ struct BufCase {
 };
 static rc::Gen<BufCase> genBuf(bool big) {
 	using namespace rc;
-	return gen::apply([](Bytes seed, uint64_t bs, int blocks, int kind) {
-		BufCase c; seed.resize(64); memcpy(c.seed, seed.data(), 64); c.bufSeed = bs; c.size = 64u * (uint32_t)blocks; c.bufKind = kind; return c;
+	return gen::apply([](Bytes seed, uint64_t bs, int blocks, int kind, int off) {
+		BufCase c; seed.resize(64); memcpy(c.seed, seed.data(), 64); c.bufSeed = bs; c.size = 64u * (uint32_t)blocks; c.bufKind = kind; c.off = 16u * (unsigned)off; return c;
 	}, vg::genBytesLen(gen::just(64)), gen::arbitrary<uint64_t>(),
-		gen::resize(100, big ? gen::element(32768, 32767, 4096) : gen::oneOf(gen::element(0, 1, 2, 3, 4, 63, 64, 65, 127, 128, 129), gen::inRange(0, 200))), gen::inRange(0, 3));
+		gen::resize(100, big ? gen::element(32768, 32767, 4096) : gen::oneOf(gen::element(0, 1, 2, 3, 4, 63, 64, 65, 127, 128, 129), gen::inRange(0, 200))), gen::inRange(0, 3), gen::resize(100, gen::element(0, 0, 1, 2, 3)));
 }
 
 static std::string genBody(const BufCase& c) {
@@ -82,7 +84,7 @@ static std::string genBody(const BufCase& c) {
 	for (int which = 0; which < 2; ++which) {
 		alignas(16) uint8_t s1[64], s2[64]; uint8_t sm[64];
 		memcpy(s1, c.seed, 64); memcpy(s2, c.seed, 64); memcpy(sm, c.seed, 64);
-		AlignedBuf a(c.size), b(c.size); Bytes m(c.size + 1);
+		AlignedBuf a(c.size, c.off), b(c.size, c.off); Bytes m(c.size + 1);
 		if (which == 0) { fillAes1Rx4<true>(s1, c.size, a.p); fillAes1Rx4<false>(s2, c.size, b.p); ref::aesGenerator1R(sm, m.data(), c.size); }
 		else { fillAes4Rx4<true>(s1, c.size, a.p); fillAes4Rx4<false>(s2, c.size, b.p); ref::aesGenerator4R(sm, m.data(), c.size); }
 		const char* nm = which == 0 ? "fillAes1Rx4" : "fillAes4Rx4";
@@ -100,7 +102,7 @@ static std::string genBody(const BufCase& c) {
 }
 
 static std::string hashBody(const BufCase& c) {
-	AlignedBuf in(c.size); c.fillBuf(in.p);
+	AlignedBuf in(c.size, c.off); c.fillBuf(in.p);
 	alignas(16) uint8_t h1[64], h2[64]; uint8_t hm[64];
 	hashAes1Rx4<true>(in.p, c.size, h1); hashAes1Rx4<false>(in.p, c.size, h2);
 	ref::aesHash1R(in.p, c.size, hm);
@@ -108,7 +110,7 @@ static std::string hashBody(const BufCase& c) {
 	if (memcmp(h2, hm, 64)) return "hashAes1Rx4<hard> != specification";
 	// combined step == fingerprint followed by refill (property: hashAndFill(buf,seed) == (hash1R(buf), fill1R(seed)))
 	for (int soft = 0; soft < 2; ++soft) {
-		AlignedBuf buf(c.size); c.fillBuf(buf.p);
+		AlignedBuf buf(c.size, c.off); c.fillBuf(buf.p);
 		alignas(16) uint8_t st[64], hh[64]; memcpy(st, c.seed, 64);
 		if (soft) hashAndFillAes1Rx4<true>(buf.p, c.size, hh, st); else hashAndFillAes1Rx4<false>(buf.p, c.size, hh, st);
 		uint8_t sm[64]; memcpy(sm, c.seed, 64); Bytes m(c.size + 1);
@@ -119,7 +121,8 @@ static std::string hashBody(const BufCase& c) {
 		if (!buf.canaryOk()) return "hashAndFillAes1Rx4 wrote beyond the buffer";
 	}
 	vh::label(c.size < 4096 ? "size<prefetch-distance" : c.size == 4096 ? "size==prefetch-distance" : "size>prefetch-distance");
-	vh::label("buf-kind:" + std::to_string(c.bufKind));
+	vh::label("buf-kind:" + std::to_string(c.bufKind)); vh::label("buffer-offset-from-64B-boundary:" + std::to_string(c.off));
+	if (!in.canaryOk()) return "hashAes1Rx4 wrote to its input buffer / around it";
 	vh::nontrivial(vh::fnv(c.seed, 64, vh::mix(c.size, c.bufSeed)));
 	return "";
 }
